@@ -1,6 +1,7 @@
 package stateful
 
 import (
+	"errors"
 	"regexp"
 	"time"
 
@@ -16,6 +17,11 @@ type operationKey struct {
 var boolTrueResultContainer = resultContainer{BoolValue: true, IsBoolValue: true}
 var boolFalseResultContainer = resultContainer{BoolValue: false, IsBoolValue: true}
 var emptyResultContainer = resultContainer{}
+
+// errDivisionByZero is reported for an integer or duration division (or modulo) by zero: the
+// same text the recovered runtime panic had in expression.Eval, now also on the paths that do
+// not recover (EvalBool, EvalInt, ...).
+var errDivisionByZero = errors.New("runtime error: integer divide by zero")
 
 type evaluationFnInfo struct {
 	f          evaluationFn
@@ -1034,6 +1040,10 @@ var evaluationFuncs = map[operationKey]*evaluationFnInfo{
 				return emptyResultContainer, &ErrSide{error: err, IsRight: true}
 			}
 
+			if right == 0 {
+				return emptyResultContainer, &ErrSide{error: errDivisionByZero, IsRight: true}
+			}
+
 			return resultContainer{Int64Value: left / right, IsInt64Value: true}, nil
 		},
 		returnType: ast.TInt,
@@ -1051,6 +1061,10 @@ var evaluationFuncs = map[operationKey]*evaluationFnInfo{
 
 			if right, err = rightNode.EvalInt(scope, executionState); err != nil {
 				return emptyResultContainer, &ErrSide{error: err, IsRight: true}
+			}
+
+			if right == 0 {
+				return emptyResultContainer, &ErrSide{error: errDivisionByZero, IsRight: true}
 			}
 
 			return resultContainer{Int64Value: left % right, IsInt64Value: true}, nil
@@ -1186,6 +1200,10 @@ var evaluationFuncs = map[operationKey]*evaluationFnInfo{
 				return emptyResultContainer, &ErrSide{error: err, IsRight: true}
 			}
 
+			if right == 0 {
+				return emptyResultContainer, &ErrSide{error: errDivisionByZero, IsRight: true}
+			}
+
 			return resultContainer{DurationValue: left / time.Duration(right), IsDurationValue: true}, nil
 		},
 		returnType: ast.TDuration,
@@ -1220,6 +1238,10 @@ var evaluationFuncs = map[operationKey]*evaluationFnInfo{
 
 			if right, err = rightNode.EvalDuration(scope, executionState); err != nil {
 				return emptyResultContainer, &ErrSide{error: err, IsRight: true}
+			}
+
+			if right == 0 {
+				return emptyResultContainer, &ErrSide{error: errDivisionByZero, IsRight: true}
 			}
 
 			return resultContainer{Int64Value: int64(left / right), IsInt64Value: true}, nil
